@@ -576,7 +576,8 @@ const maxCharPadding = 10000
 
 func filterCenter(in *Value, param *Value) (*Value, *Error) {
 	width := param.Integer()
-	slen := in.Len()
+	// the length of the text that gets padded (Len() is 0 for numbers and bools)
+	slen := utf8.RuneCountInString(in.String())
 	if width <= slen {
 		return in, nil
 	}
@@ -680,7 +681,8 @@ func filterLinenumbers(in *Value, param *Value) (*Value, *Error) {
 }
 
 func filterLjust(in *Value, param *Value) (*Value, *Error) {
-	times := param.Integer() - in.Len()
+	// the length of the text that gets padded (Len() is 0 for numbers and bools)
+	times := param.Integer() - utf8.RuneCountInString(in.String())
 	if times < 0 {
 		times = 0
 	}
